@@ -12,7 +12,7 @@ BASE_STRUCT = ("struct", "B0", (("b", 0, U(8), None, None),))
 BASE_ENUM = ("enum", "E0", (("e0", 0), ("e1", 1)))
 
 IDENTS = ("u8x", "i2c_msg", "f32x", "strx", "Optionalx", "structure", "mod_", "A", "a_b1", "implx", "enum_", "u", "i", "f", "_x", "as_", "version1", "signalx", "methodx", "returnsx", "u123", "f321")
-VALUE_FORMS = (0, 7, -3, 18446744073709551615, 9007199254740993, -9223372036854775807, 2.0, 1e+16, 1.5, -2.5e-3, 1e10, "", "txt", "a b", "\u00b5s \u03a9", "x//y", "p/*q*/r", ("id", "ident1"), ("id", "u8"), [1], [1, 2], [("id", "a"), "s", -1.5], [[1, 2], [3]], [[1], [2, [3]]])
+VALUE_FORMS = (0, 7, -3, 18446744073709551615, 9007199254740993, -9223372036854775807, 2.0, 1e+16, 1.5, -2.5e-3, 1e10, "", "txt", "a b", "\u00b5s \u03a9", "x//y", "p/*q*/r", ("id", "ident1"), ("id", "u8"), [1], [1, 2], [("id", "a"), "s", -1.5], [[1, 2], [3]], [[1], [2, [3]]], [], [[], [1]])
 RANGE_FORMS = ((-1.5, 2000.0), (0.0, 1.0), (1e-3, 1e5), (-1e-7, -0.0), (0, 10), (-5, 5.5), (1e-05, 1e16))
 UNITS = ("m/s", "", "\u00b0C", "deg C", "%", "a,b", "\u03a9\u00b7m \u20ac")
 
@@ -63,7 +63,7 @@ def descriptions(tier):
     out.append(("array-size-beyond-u32", [("struct", "S", (("arr", 0, ("arr", U(8), 4294967298), None, None),))]))
     out.append(("service-ids-beyond-u32", [S1, ("service", "Svc", 4294967297, (("get", -2, "S", "S"),))]))
     # 4. bindings: rename x extension fields (every value form) x signal blocks
-    forms = VALUE_FORMS if tier != "quick" else VALUE_FORMS[:9] + VALUE_FORMS[11:15] + VALUE_FORMS[16:19] + VALUE_FORMS[20:21]
+    forms = VALUE_FORMS if tier != "quick" else VALUE_FORMS[:9] + VALUE_FORMS[11:15] + VALUE_FORMS[16:19] + VALUE_FORMS[20:21] + VALUE_FORMS[24:26]
     for rename in (None, "Ren"):
         for nsig in (0, 1, 2):
             sigs = tuple(("b" if j == 0 else "c", (("endianess", "big"), ("k%d" % j, j))) for j in range(nsig))
